@@ -6,6 +6,7 @@ import KyupyVerif.Drv.Datasheet
 import KyupyVerif.Drv.Traverse
 import KyupyVerif.Drv.CircObj
 import KyupyVerif.Drv.Netlist
+import KyupyVerif.Drv.Transform
 /-! Stateless driver extensions: each module `KyupyVerif/Drv/<Name>.lean` defines
 `handle : String → List String → Option String` (command word, remaining tokens → answer, or `none`
 when the command is not its own) and is listed in `extHandlers` below. -/
@@ -19,7 +20,8 @@ def extHandlers : List (String → List String → Option String) := [
   KV.Drv.Datasheet.handle,
   KV.Drv.Traverse.handle,
   KV.Drv.CircObj.handle,
-  KV.Drv.Netlist.handle
+  KV.Drv.Netlist.handle,
+  KV.Drv.Transform.handle
 ]
 
 def tryExt (cmd : String) (args : List String) : Option String :=
